@@ -1,2 +1,43 @@
-From Cmr Require Import Base Det SpModel.
-Theorem placeholder_C17 : True. Proof. exact I. Qed.
+(* Properties_C17.v — C17: the balancedness verdict equals the definition, is always written; violator valid. *)
+From Coq Require Import Permutation.
+From Cmr Require Import Base Det BaseProofs SpModel BalancedProofs.
+Local Open Scope Z_scope.
+
+(* the brute-force oracle is the definition: no square submatrix (any duplicate-free in-range row and column index
+   lists of equal length) with exactly two nonzeros in every row and column has entry sum = 2 mod 4 *)
+Theorem C17_oracle_is_definition : forall m n M, balanced_bf m n M = true <-> Balanced m n M.
+Proof. exact balanced_bf_spec. Qed.
+Print Assumptions C17_oracle_is_definition.
+
+(* being such a "bad cycle" does not depend on the order in which rows and columns are listed *)
+Theorem C17_bad_cycle_perm : forall M rs rs' cs cs', length rs = length cs ->
+  Permutation rs rs' -> Permutation cs cs' ->
+  bad_cycle (length rs) (submat M rs cs) = bad_cycle (length rs') (submat M rs' cs').
+Proof. exact bad_cycle_perm. Qed.
+Print Assumptions C17_bad_cycle_perm.
+
+(* the violator check is sound: an accepted submatrix refutes balancedness *)
+Theorem C17_violator_sound : forall m n M rs cs, check_unbalanced m n M rs cs = true -> ~ Balanced m n M.
+Proof. exact check_unbalanced_sound. Qed.
+Print Assumptions C17_violator_sound.
+
+(* whenever the judge accepts a record of CMRbalancedTest: either the graph algorithm returned an error status,
+   or the call succeeded, the verdict WAS WRITTEN (0 or 1), for ternary input it equals the oracle, a "no" with a
+   requested violator carries a valid one, and input with an entry outside {-1,0,1} is reported not balanced *)
+Theorem C17_judge_sound : forall rec alg sp ws m n M rc v sub rest,
+  balanced_input rec = Some ((alg, sp, ws, (m, n, M), rc, v, sub), rest) ->
+  judge_balanced rec = 0 ->
+  (alg = 2 /\ rc <> 0) \/
+  (rc = 0 /\ (v = 0 \/ v = 1) /\
+   (is_ternary M = true ->
+      (v = 1 <-> balanced_bf m n M = true) /\
+      (v = 1 -> sub = None) /\
+      (v = 0 -> ws = true -> exists rs cs, sub = Some (rs, cs) /\ check_unbalanced m n M rs cs = true) /\
+      (v = 0 -> forall rs cs, sub = Some (rs, cs) -> check_unbalanced m n M rs cs = true)) /\
+   (is_ternary M = false -> v = 0)).
+Proof. exact judge_balanced_sound. Qed.
+Print Assumptions C17_judge_sound.
+
+Example C17_nonvacuous :
+  balanced_bf 3 3 [[1;1;0];[0;1;1];[1;0;1]] = false /\ balanced_bf 3 3 [[1;1;0];[0;1;1];[-1;0;1]] = true.
+Proof. split; vm_compute; reflexivity. Qed.
